@@ -2,7 +2,7 @@
 """Copies confirmed seeded changes into /verif/seeded/<id>/ and records which checks catch them (quick tier)."""
 import json, os, re, shutil, subprocess, sys, glob
 related = {  # additional checks worth running besides the property the change was written for
- "C01": ["C17"], "C02": ["C03"], "C03": ["C01", "C02"], "C04": ["C07"], "C05": ["C07"], "C06": ["C07"], "C07": [], "C08": [], "C09": [], "C10": ["C07"],
+ "C01": ["C03"], "C02": ["C03"], "C03": ["C01", "C02"], "C04": ["C07"], "C05": ["C07"], "C06": ["C07"], "C07": [], "C08": ["C03"], "C09": [], "C10": ["C07"],
  "C11": [], "C12": ["C15"], "C13": [], "C14": [], "C15": ["C18"], "C16": [], "C17": [], "C18": ["C15"], "C19": [], "C20": [],
 }
 MISSED = {
@@ -35,6 +35,16 @@ MISSED = {
  "C17-5": "caught at once (lock-discipline probe: re-entrant read in find_inbound, confirmed by the focused stress as free-running.deadlock)",
  "C18-5": "caught at once (dot.edge-attributes)",
  "C20-5": "caught at once (yield.edge-does-not-exist-now for `for e in &node`)",
+ "C01-5": "missed (no parallel edges with different values on both sides of a > 4096 burst); caught after the long-list family got one edge before and one after the burst between the hub and a third node, followed by disconnect / connect / disconnect",
+ "C02-5": "caught at once by the long-list family raised to 4100 entries in round 5 (symmetry.self-loop-odd / disconnect.not-exactly-one-edge-removed)",
+ "C05-5": "missed twice: first because the deepest chain was 5000 nodes (raised to 20 000), then because the judge returned after the callback clause (the closure was handed a wrongly oriented edge, a C07 clause) without judging the returned path; the result is now judged independently of what the closure saw",
+ "C06-5": "missed (paths were read through next(), to_vec, first/last and Index only); caught after every path iterator and node iterator is driven through nth / skip / step_by / last / count / size_hint and compared with the next() sequence",
+ "C08-5": "missed by C08 itself (largest in-degree 1100), caught by C01/C03 through the 4100-entry in-lists (prelude.state-differs-from-model); C08 now has a wide hub (in- and out-degree 4199)",
+ "C09-5": "missed (search_cycle was never preceded by target()); caught after cycle cells also run with a target, which the call must ignore",
+ "C11-5": "missed by the quick tier (deepest scc input 12 000; the thorough tier had 33 000 and 65 000); caught after the quick sizes were raised to 20 000 and 40 000",
+ "C14-5": "missed (two adjacent identical entries were too rare); caught after 12% of the generated edge entries repeat the previous entry verbatim",
+ "C15-5": "missed (programs only deserialised what they had serialised); caught after programs deserialise hand-made documents derived from the current graph (a key declared twice, an undeclared key, reordered lists) on both members of a pair",
+ "C16-5": "missed (Path cannot be named, so it was not probed); caught after Path and its iterators are probed on values obtained from a real search",
 }
 def run(patch, props):
     out = subprocess.run(["/verif/tools/try_mutant.sh", patch, "quick"] + props, capture_output=True, text=True, timeout=3600).stdout
